@@ -25,7 +25,7 @@ def seeded_table():
         prop = id.split("-")[0]
         files = m.get("files_changed") or []
         if isinstance(files, str): files = [files]
-        det = open(d + "/detection.txt").read() if os.path.exists(d + "/detection.txt") else ""
+        det = open(d + "/detection.txt", errors="replace").read() if os.path.exists(d + "/detection.txt") else ""
         own = sorted(set(re.findall(r"rule (%s\.[A-Za-z0-9]+) " % prop, det)))
         allc = " ".join(m.get("detected_by_quick_checks", []))
         out.append("| %s | %s | %s | %s | %s |" % (id, esc(",".join(files))[:70], esc(m.get("summary", ""))[:170] + "…", " ".join(own), allc))
